@@ -238,10 +238,7 @@ func (f *c12fsm) failover() {
 	h.SnapshotRestore(bytes.NewReader(buf.Bytes()), uint64(len(f.log)), 1)
 	f.reps[f.leader] = &c12rep{h: h, applied: len(f.log)}
 	f.tr.Op(6)
-	var l vw.L
-	l.AddInt(f.leader)
-	l.Add(f.dumpRep(f.leader)...)
-	f.tr.Obs(l...)
+	f.tr.Obs(c12dumpState(f.reps[f.leader].h.state)...)
 	f.checkLeader("after-failover")
 }
 
